@@ -118,7 +118,9 @@ def cisco_asa(pw, user=b""):
     s = pw
     if user and len(pw) < 28:
         s = s + _cisco_user(user)
-    size = 32 if len(s) >= 16 else 16
+    # the prose description says "16 or more", but the vector recorded from an ASA 9.6 device
+    # ("0123456789ab" + user "user" -> f.T4BKdzdNkjxQl7, exactly 16 bytes) fixes the threshold at > 16
+    size = 32 if len(s) > 16 else 16
     s = s[:size].ljust(size, b"\0")
     return _cisco_encode(hashlib.md5(s).digest())
 
@@ -135,6 +137,8 @@ def selftest():
     assert cisco_type7_decode("0822455D0A16") == b"cisco"
     assert cisco_type7_decode("060506324F41") == b"cisco"
     assert len(CISCO7_KEY) == 53
+    assert cisco_asa(b"0123456789ab", b"user") == "f.T4BKdzdNkjxQl7"  # ASA 9.6
+    assert cisco_pix(b"1234567890123456") == "feCkwUGktTCAgIbD"  # Cisco PIX 5.0 configuration guide
     assert mysql41(b"mypass") == "*6C8989366EAF75BB670AD8EA7A7FC1176A95CEF4"
     assert mysql323(b"mypass") == "6f8c114b58f2ce9e"
     assert htdigest(b"Circle Of Life", b"Mufasa", b"testrealm@host.com") == "939e7578ed9e3c518a452acee763bce9"
